@@ -590,11 +590,21 @@ fn final_checks(input: &[Ev], out: &[Ev], order: &[usize], shape_idx: usize, sta
 }
 
 pub fn tier_shapes(thorough: bool) -> Vec<Shape> {
+    let mut v = if thorough { shapes(14, 2, 3) } else { shapes(12, 2, 2) };
+    // three overlapping features (the middle one may stay idle while the third one buffers)
+    let one = |rule: usize, attempts: usize, events: usize| vec![ScenShape { rule, attempts, events }];
+    let mut three = vec![
+        vec![one(0, 1, 2), one(0, 1, 2), one(0, 1, 2)],
+        vec![one(0, 1, 2), one(1, 1, 2), one(0, 1, 2)],
+    ];
     if thorough {
-        shapes(14, 2, 3)
-    } else {
-        shapes(12, 2, 2)
+        three.push(vec![one(0, 1, 3), one(0, 1, 2), one(0, 2, 2)]);
+        three.push(vec![one(1, 1, 2), one(0, 1, 2), one(1, 1, 2)]);
     }
+    for feats in three {
+        v.push(Shape { feats, parsing_finished: false, parse_err: false, twins: false });
+    }
+    v
 }
 
 pub fn run_shape(shape: &Shape, idx: usize, node_cap: usize, stats: &mut NormStats) {
